@@ -15,6 +15,8 @@ from ..models import dtw_ref
 PROP = "C13"
 TIERS = {"quick": 64000, "thorough": 3200000}
 BATCH = 250
+HISTORY_WALL = 60
+NO_MINIMISE = {"hang"}
 RULE = ("one evaluation = one generated history (2-4 client sessions, up to 40 ops: align / align_fast / reset / open a k-best, best_matches or "
         "knee stream / next / close / best_match / get_match / late reads of SAMatch.value/.distance/.segment/.path / matching_function) on one shared "
         "SubsequenceAlignment object; oracles: brute-force matching function, path/segment validity and cost, per-stream invariants, and equality "
